@@ -340,6 +340,12 @@ fn check_artifact<B: ocipkg::image::Image>(sig: &str, art: &mut Artifact<B>, lay
             if exists {
                 continue;
             }
+            // the untyped getter in between (as a tool that first inspects the blob would call it) must not change the answer
+            if (i + k) % 2 == 0 {
+                if let Err(e) = art.get_layer(&digest) {
+                    return fail(format!("{sig}/get-layer-err"), format!("layer {i}: get_layer(digest) failed: {e:#}: {}", what()));
+                }
+            }
             let ok = match k {
                 0 => art.get_instance(&digest).is_ok(),
                 1 => art.get_parametric_instance(&digest).is_ok(),
